@@ -1175,3 +1175,93 @@ func ruleR11_9(w *World, r *Report) {
 		r.Unk("R11.9", "constructors", "-", "no exported constructor returning a Formula")
 	}
 }
+
+// ---------- R18.8: a printer of a parsed problem consults its status ----------
+
+// The parsers simplify while reading and may conclude Unsat; what is then left in Units / Clauses no longer says so.
+// A printer whose output does not depend on Problem.Status prints the same text for a problem and for the same
+// constraints found contradictory, so the text of an unsatisfiable problem can read back as a satisfiable one.
+func ruleR18_8(w *World, r *Report) {
+	r.Rule("R18.8", "every whole-problem printer of solver.Problem reads Problem.Status (a problem found unsatisfiable while being read must be rendered as an unsatisfiable text)", 2)
+	n := 0
+	for _, fam := range printerFamilies {
+		for _, root := range fam.Roots {
+			fn := w.Func(root[0], root[1])
+			if fn == nil || fn.Signature.Recv() == nil || typeShort(fn.Signature.Recv().Type()) != "*solver.Problem" {
+				continue
+			}
+			n++
+			key := w.FuncName(fn) + " consults the status"
+			reads := false
+			for g := range w.Reachable(fn) {
+				allInstrs(g, func(ins ssa.Instruction) {
+					if u, ok := ins.(*ssa.UnOp); ok && u.Op == token.MUL {
+						if o, f, _, okF := fieldOf(u.X); okF && o == "solver.Problem" && f == "Status" {
+							reads = true
+						}
+					}
+				})
+			}
+			r.Check(reads, "R18.8", key, w.Pos(fn.Pos()), "the rendering depends on Problem.Status",
+				"the printer never reads Problem.Status: a problem that the parser found unsatisfiable is printed from what simplification left over, and that text can be satisfiable when read back")
+		}
+	}
+	if n == 0 {
+		r.Unk("R18.8", "problem printers", "-", "no printer with receiver *solver.Problem among the printer roots")
+	}
+}
+
+// ---------- R18.9: the declared variable count travels through the OPB text ----------
+
+func ruleR18_9(w *World, r *Report) {
+	r.Rule("R18.9", "every whole-problem OPB printer emits the `#variable=` declaration and the OPB reader looks for it: variables that occur in no printed constraint (bound, eliminated or unused) stay part of the problem when the text is read back", 3)
+	const marker = "#variable="
+	hasConst := func(fn *ssa.Function) bool {
+		found := false
+		for g := range w.Reachable(fn) {
+			if !w.InModule(g) {
+				continue
+			}
+			allInstrs(g, func(ins ssa.Instruction) {
+				for _, op := range ins.Operands(nil) {
+					if op == nil || *op == nil {
+						continue
+					}
+					if s, ok := constString(*op); ok && strings.Contains(s, marker) {
+						found = true
+					}
+				}
+			})
+		}
+		return found
+	}
+	n := 0
+	for _, fam := range printerFamilies {
+		if fam.Name != "OPB" {
+			continue
+		}
+		for _, root := range fam.Roots {
+			fn := w.Func(root[0], root[1])
+			if fn == nil || fn.Signature.Recv() == nil {
+				continue
+			}
+			t := typeShort(fn.Signature.Recv().Type())
+			if t != "*solver.Problem" && t != "*solver.Solver" {
+				continue // printers of a single constraint
+			}
+			n++
+			r.Check(hasConst(fn), "R18.9", w.FuncName(fn)+" declares the variable count", w.Pos(fn.Pos()), "emits "+marker,
+				"the rendering has no `"+marker+"` declaration: variables that appear in no printed constraint are lost when the text is read back (fewer variables, fewer models)")
+		}
+		if p := w.Func(fam.Parser[0], fam.Parser[1]); p != nil {
+			n++
+			r.Check(hasConst(p), "R18.9", w.FuncName(p)+" reads the declared variable count", w.Pos(p.Pos()), "looks for "+marker,
+				"the reader never looks for the `"+marker+"` declaration its printers emit: the variable count is taken from the constraints alone, so declared variables that occur in none of them disappear")
+		} else {
+			r.Unk("R18.9", "OPB reader", "-", "parser not found")
+		}
+	}
+	if n == 0 {
+		r.Unk("R18.9", "OPB printers", "-", "no whole-problem printer in the OPB family")
+	}
+}
